@@ -749,6 +749,15 @@ class Unit:
         if rename:
             sig = re.sub(r'\bfn\s+%s\b' % re.escape(fn), 'fn ' + rename, sig, count=1)
         body = self.rewrite_body(body, body_rw)
+        name = rename or fn
+        # closures that carry no specification (`|x| expr` not produced by a rewrite rule, which always writes `-> (o: T)`):
+        # Verus cannot reason about their results; the engine turns a failed obligation in such a function into "undecided"
+        cl = re.findall(r'(?:[(,=]|\bmove)\s*(\|[^|\n]{0,60}\|)(?!\s*->)', body)
+        cl = [c for c in cl if not re.search(r'\|\s*\|', c) or True]
+        if cl:
+            if not hasattr(self, "opaque_closures"):
+                self.opaque_closures = {}
+            self.opaque_closures[name] = "; ".join(sorted(set(cl)))[:120]
         if loops:
             body = inject_loop_invariants(body, loops)
         for h in (hints or []):
